@@ -61,7 +61,7 @@ func fxIsRune(t types.Type) bool {
 // fxWrites renders what the instructions write into a text buffer
 // (bytes.Buffer / strings.Builder: WriteString, WriteRune, WriteByte); ok=false
 // when an argument is neither a constant nor the key.
-func fxWrites(c *Ctx, instrs []ssa.Instruction, isKey func(ssa.Value) bool, mapVal ssa.Value) (out string, nconst int, ok bool) {
+func fxWrites(c *Ctx, instrs []ssa.Instruction, isKey func(ssa.Value) bool, mapVal ssa.Value, bind fxBind) (out string, nconst int, ok bool) {
 	ok = true
 	for _, in := range instrs {
 		call, isCall := in.(*ssa.Call)
@@ -93,6 +93,15 @@ func fxWrites(c *Ctx, instrs []ssa.Instruction, isKey func(ssa.Value) bool, mapV
 			} else if r, isR := core.ConstRune(a); isR {
 				out += string(r)
 				nconst++
+			} else if p, isP := a.(*ssa.Parameter); isP {
+				// a parameter of a merged helper bound to a constant at the call site
+				// (escapeWithQuote(s, '`') writing its enclosure rune)
+				if r, has := bind[p]; has {
+					out += string(r)
+					nconst++
+				} else {
+					ok = false
+				}
 			} else {
 				ok = false
 			}
@@ -253,7 +262,7 @@ func fxRuneTables(c *Ctx, fn *ssa.Function, bind fxBind) []*fxRuneTable {
 					b = nil // return / panic inside the table
 				}
 			}
-			s, n, ok := fxWrites(c, ins, isKey, nil)
+			s, n, ok := fxWrites(c, ins, isKey, nil, bind)
 			if !ok {
 				good = false
 			}
@@ -345,8 +354,8 @@ func fxRuneTables(c *Ctx, fn *ssa.Function, bind fxBind) []*fxRuneTable {
 				walk(start)
 				return ins
 			}
-			hit, _, ok1 := fxWrites(c, region(iff.Block().Succs[0]), isKey, val)
-			miss, _, ok2 := fxWrites(c, region(iff.Block().Succs[1]), isKey, val)
+			hit, _, ok1 := fxWrites(c, region(iff.Block().Succs[0]), isKey, val, bind)
+			miss, _, ok2 := fxWrites(c, region(iff.Block().Succs[1]), isKey, val, bind)
 			if !ok1 || !ok2 {
 				continue
 			}
